@@ -5,7 +5,7 @@ import os, time
 from lib import vlib
 from lib.vlib import tlc, tlc_require_ok, go_overlay_test, read_ndjson, sub
 from checks.v2common import Acc, cfg_text
-from checks.v1common import trace_v1
+from checks.v1common import trace_v1, run_resumable
 PID = "C17"
 def run():
     t0 = time.time(); v = vlib.Verdict(PID); acc = Acc(); th = vlib.TIER == "thorough"
@@ -41,6 +41,16 @@ def run():
     lines = trace_v1(v, acc, recs, "FindPotentialMatches")
     acc.nontrivial += sum(1 for x in lines if x.get("cands"))
     acc.samples += [{k: x[k] for k in ("src", "tgt", "cands", "bytes")} for x in lines if len(x.get("cands", [])) > 1][:2]
+    # "... so a Match's Offset/Extent can always be used to slice the normalised input": the enumerated cases of V1Classify through the
+    # real MultipleMatch / NearestMatch, three concretisations (one with a normaliser that shortens the text); TraceV1.InBounds on every result
+    gen = tlc("V1Classify", "V1Classify.cfg", workers=4, timeout=1800, files={"V1Classify.cfg": cfg_text("V1Classify.cfg", MaxCtx=1)})
+    tlc_require_ok(gen, "V1Classify"); acc.add_tlc(gen, "V1Classify.cfg")
+    recs3, crashes, _ = run_resumable("stringclassifier", ["common/util_test.go", "stringclassifier/sc_driver_test.go"], "TestVerifSCReplay",
+                                      {"VERIF_IN": gen.outpath, "VERIF_STRIDE": "2" if th else "5"}, "sc.replay17")
+    for c in crashes:
+        v.fail("crash", c)
+    lines3 = trace_v1(v, acc, recs3, "MultipleMatch / NearestMatch results inside the normalised unknown")
+    acc.extra["classifier_results_checked"] = sum(1 for x in lines3 if x.get("ev") in ("mm", "nm"))
     rc = v.finish()
     vlib.write_evidence(PID, acc.coverage("M/G: every string <= MaxLen over 8 byte-width classes (ASCII / multi-byte space, punctuation, letters of 1, 2, 4 bytes, invalid byte), two concretisations; T: every source (>= 3 tokens) x target pair over the vocabulary {a, b} up to the stated length, every longer source (<= 10, thorough 12 tokens) x every target of 3..5 (6) tokens over the same two words (highly repetitive), and seeded long noisy copies; non-trivial = strings with >= 2 tokens / pairs with at least one candidate", exhaustive=True),
         ["the range heuristics of searchset (untangle / split / merge / coalesce) are checked against their contract, not transcribed"], time.time() - t0, len(v.violations))
